@@ -295,6 +295,15 @@ def go_combos(rng, spec, L_unused):
                 names += [o["A"]] if o["o"] == "field" else [o["x"]["A"], o["B"]]
         out.append("\tcs = append(cs, isoCombo(\"morphism\", obj{\"isos\": %s}, %s, func() any { %s; return optics.Morphism[%s, %s](%s) }))"
                    % (go_obj(isos), tys_go(names), "; ".join(binds), T, T, ", ".join(args)))
+        # a morphism is an isomorphism: the same list with a morphism of its first two entries in front, and with a
+        # morphism of its middle entries inside - both mean the flat list (Forward and Inverse run in list order)
+        if len(args) >= 3:
+            mm = "optics.Morphism[%s, %s]" % (T, T)
+            nestings = ["%s(%s(%s), %s)" % (mm, mm, ", ".join(args[:2]), ", ".join(args[2:])),
+                        "%s(%s, %s(%s), %s)" % (mm, args[0], mm, ", ".join(args[1:-1]), args[-1])]
+            for nx in nestings:
+                out.append("\tcs = append(cs, isoCombo(\"morphism-nested\", obj{\"isos\": %s}, %s, func() any { %s; return %s }))"
+                           % (go_obj(isos), tys_go(names), "; ".join(binds), nx))
     if T == "K0":
         for k in range(6):
             init = {rng.choice(["a", "b", "c", "k", ""]): rng.randint(-5, 5) for _ in range(rng.randint(0, 4))}
